@@ -9,7 +9,7 @@
                      its sheet number over the oriented cover is the order of an admissible point
                      group, H1 = Z^3; found / not found and the sheet number agree for every
                      renumbering of the input and its dual; corpus symbols have one. *)
-EXTENDS Mfd3, Surface2D, Action, Json, IOUtils
+EXTENDS Mfd3, Prism, Action, Json, IOUtils
 Rec == ndJsonDeserialize(IOEnv.TRACE)
 VARIABLE l
 Init == l = 1
@@ -31,6 +31,8 @@ PseudoOK(e) ==
    /\ CompleteSym(S) /\ S.dim = 3
    /\ (e.found => PTCoverOK(e, S))
    /\ (e.corpus => e.found)
+   \* the prism family: the corpus claim is justified here (curvature 0 in 2-D, covering of the prism symbol)
+   /\ ("prism_of" \in DOMAIN e => Euclidean2D(e.prism_of) /\ Connected(S) /\ IsCoverOf(S, Prism(e.prism_of)) /\ e.found)
    /\ \A k \in 1..Len(e.variants) : LET w == e.variants[k] IN
          /\ "panic" \notin DOMAIN w
          /\ w.found = e.found                                            \* independent of the numbering / dualisation
